@@ -76,6 +76,44 @@ def extraV : P String := do
   let a ← flt; let ge ← flt; let n ← flt
   pure (flist [extraGM a ge, extraG a ge n])
 
+/-- df.order twoPhase s(nat list) x(flt list) → `F` / `C` (fallback = sampling / curvature formula) and the composition
+it is handed, in order -/
+def dfOrderV : P String := do
+  let two ← bool; let s ← lst nat; let x ← flts
+  let n := x.length
+  let xs : Nat → Float := fn x.toArray
+  let sf : Nat → Nat := fun i => s.getD i 0
+  let show_ (tag : String) (y : Nat → Float) : String := s!"{tag} {flist ((List.range n).map y)}"
+  pure (dfCurvature two (show_ "F") (show_ "C") sf xs)
+
+def opP : P (NucHist.Op Float) := do
+  let t ← tok
+  match t with
+  | "G" => do let v ← flt; pure (.setGamma v)
+  | "B" => do let v ← flt; pure (.setGb v)
+  | "S" => do let d ← nat; pure (.setSite d)
+  | "K" => pure .getK
+  | "A" => pure (.get .area)
+  | "V" => pure (.get .vol)
+  | "R" => pure (.get .rem)
+  | "M" => pure (.get .arem)
+  | _ => failure
+
+/-- nuc.hist maxR(flt list, by site id) gamma gb site ops → one answer per operation: `-` (setter), `k <bits>`,
+`f <site> <k bits>` (the factor was computed by the description of `site` at ratio `k`), `E` (ValueError).
+The invalidation table is the REGENERATED `Gen.C12.fclears`. -/
+def nucHistV : P String := do
+  let mr ← flts; let g ← flt; let b ← flt; let d ← nat; let ops ← lst opP
+  let maxR : Nat → Float := fun i => mr.getD i 0.0
+  let F : Nat → Fac → Float → (Nat × Float) := fun site _ k => (site, k)
+  let outs := NucHist.runOut fclears F maxR ops (NucHist.fresh ⟨g, b, d⟩)
+  let sh : NucHist.Out Float (Nat × Float) → String
+    | .nothing => "-"
+    | .ratio k => s!"k {fout k}"
+    | .factor v => s!"f {v.1} {fout v.2}"
+    | .error => "E"
+  pure (" ".intercalate (outs.map sh))
+
 def handle (verb : String) : Option (P String) :=
   match verb with
   | "gen.gt" => some gt
@@ -88,6 +126,8 @@ def handle (verb : String) : Option (P String) :=
   | "ic.lookup" => some lookupV
   | "ic.dispatch" => some dispatchV
   | "gen.extra" => some extraV
+  | "df.order" => some dfOrderV
+  | "nuc.hist" => some nucHistV
   | _ => none
 
 end KawinV.Drv.C12
